@@ -27,6 +27,7 @@ PROP = "C02"
 NWORK = 16
 CPU_LIMIT = 25.0          # CPU seconds one input may use (typical: < 1 ms; the largest bundled file: < 0.2 s)
 WALL_LIMIT = 1500.0       # wall-clock backstop without any progress of a worker (machine overload tolerant)
+MAX_HANGS = 6            # watchdog kills / process deaths after which a stream is abandoned
 MEM_KB = 6000000          # address space of a worker (ulimit -v)
 TICK = os.sysconf("SC_CLK_TCK") if hasattr(os, "sysconf") else 100
 
@@ -161,6 +162,7 @@ def run_oracle(hbin, cases_path, ncases, outdir, nwork=NWORK):
     nwork = max(1, min(nwork, ncases))
     per = (ncases + nwork - 1) // nwork
     ws = [Worker(k, hbin, cases_path, outdir, k * per, min(ncases, (k + 1) * per)) for k in range(nwork)]
+    aborted = False
     while True:
         alive = False
         for w in ws:
@@ -168,11 +170,20 @@ def run_oracle(hbin, cases_path, ncases, outdir, nwork=NWORK):
                 alive = True
         if not alive:
             break
+        # every hang costs CPU_LIMIT seconds: after MAX_HANGS of them the stream is abandoned (the check has failed anyway)
+        nh = sum(1 for w in ws for r in w.results.values() if r.startswith('{"st": "hang"') or r.startswith('{"st": "crash"'))
+        if nh >= MAX_HANGS:
+            aborted = True
+            for w in ws:
+                if not w.done and w.proc is not None and w.proc.poll() is None:
+                    w.proc.kill()
+                    w.proc.wait()
+            break
         time.sleep(0.05)
     results = {}
     for w in ws:
         results.update(w.results)
-    return results
+    return results, aborted
 
 
 # ----------------------------------------------------------------------------------------------
@@ -385,7 +396,14 @@ def coq_ops_item(case_line, model_line):
         toks.append("mkr %s (%d, %d) (%d, %d)" % (coq_kind_of_str(k), n[0], n[1], n[2], n[3]))
     obs, _, fin = model_line.rpartition("|")
     exp = []
-    for s in obs.split(";"):
+    pieces = obs.split(";")
+    k = 0
+    while k < len(pieces):
+        s = pieces[k]
+        if s == "tok:" and k + 1 < len(pieces):      # a token of kind `;` printed as tok:;@range
+            s = "tok:;" + pieces[k + 1]
+            k += 1
+        k += 1
         if s:
             exp += flat_obs(s)
     exp += [int(x) for x in fin.split(",")]
@@ -461,13 +479,18 @@ def run_model(mbin, mode, lines, path):
 def oracle_stage(res, hbin, mbin, cases_path, tag, stats, kf_entries, kf_hits, loop_samples):
     d = rundir(PROP)
     lines = [l for l in open(cases_path).read().split("\n") if l]
-    results = run_oracle(hbin, cases_path, len(lines), os.path.join(d, "work_" + tag))
+    results, aborted = run_oracle(hbin, cases_path, len(lines), os.path.join(d, "work_" + tag))
+    if aborted:
+        stats["abandoned_streams"] = stats.get("abandoned_streams", []) + [tag]
     loop_idx, loop_lines = [], []
     parsed = {}
     nviol = 0
     for i, line in enumerate(lines):
         cls = line.partition(" ")[0]
         js = results.get(i)
+        if js is None and aborted:
+            stats["not_evaluated"] = stats.get("not_evaluated", 0) + 1
+            continue
         if js is None:
             res.violation("no result for input %d of stream %s (worker lost)" % (i, tag),
                           {"kind": "harness", "case_index": i, "case": line[:2000]}, no_failing_input=True)
@@ -498,6 +521,13 @@ def oracle_stage(res, hbin, mbin, cases_path, tag, stats, kf_entries, kf_hits, l
                             "positions_touched": o.get("touched")})
         if o.get("viol"):
             _, text = case_text(line)
+            tr = o.get("trace") or []
+            if st in ("hang", "panic") and len(tr) >= 2:
+                stuck = [(tr[k][0], tr[k + 1][0]) for k in range(len(tr) - 1) if not tr[k][0] < tr[k + 1][0] <= tr[k][2]]
+                if stuck:
+                    o["viol"].append("progress hypothesis violated: an iteration of parse_design_file moved the cursor from "
+                                     "%d to %d (tokens: %d)" % (stuck[0][0], stuck[0][1], tr[0][2]))
+                o["trace"] = tr[:12]
             detail = " | ".join(o["viol"])
             e = match_finding(kf_entries, st, detail, text)
             if e is not None:
@@ -651,6 +681,9 @@ def main(tier, replay=None):
     res.coverage["loop_model_outcomes"] = stats["model_outcomes"]
     res.coverage["cursor_programs"] = {"cases": stats.get("ops_cases", 0), "with_panic": stats.get("ops_crash", 0),
                                        "operations": stats["ops"]}
+    if stats.get("abandoned_streams"):
+        res.coverage["abandoned_streams"] = stats["abandoned_streams"]
+        res.coverage["inputs_not_evaluated"] = stats.get("not_evaluated", 0)
     res.coverage["known_finding_inputs"] = {k: v["n"] for k, v in kf_hits.items()}
     res.coverage["exhaustive"] = False
     res.coverage["rule"] = (
